@@ -1,6 +1,6 @@
 PROPERTY = "C17"
 LEVEL = "proof"
-LEAN_MODULES = ["CifModel.Props.C17", "CifModel.Props.C17Map", "CifModel.Props.C17Store"]
+LEAN_MODULES = ["CifModel.Props.C17", "CifModel.Props.C17Map", "CifModel.Props.C17Store", "CifModel.Props.ReviewC17"]
 REQUIRED = ["CifModel.C17_dup_ustrings_balanced", "CifModel.C17_clone_balanced", "CifModel.C17_insert_balanced",
             "CifModel.C17_fault_reached_iff", "CifModel.C17_set_element_balanced", "CifModel.C17_get_names_balanced",
             "CifModel.C17_cex_get_names_leak", "CifModel.C17_clone_shape", "CifModel.C17_balanced_nodup",
